@@ -33,6 +33,13 @@ and destination. If `at` is not an existing group when the op is due, the op is 
 shapes are the same op on the resolved absolute path (`require_*`: driver lines `rgrp`/`rds` =
 "the existing node, else create").
 
+A second family of cases (`family="attribute-history"`, `gen_attr_case`): on a small tree the SAME
+(node, attribute name) is set, overwritten, deleted and deleted-when-missing again and again (the node
+now and then deleted + re-created, moved or copied), with one variant per single container boundary
+position (every position of the history), one with a boundary after every op and random subsets
+(thorough: all pairs of positions as well) - e.g. attribute created in an older container, overwritten
+and deleted within one later container.
+
 Oracle (needs no model): every variant is run on the REAL code (MetadorContainer over
 h5py.File / IH5Record / IH5MFRecord) in one worker; after every base op and at the end the
 user-visible observation made through the public container API — ok/err outcome (exception
@@ -82,16 +89,16 @@ PROBE_OPS = ("has", "get")
 NOMODEL_OPS = ATTR_OPS + PROBE_OPS  # lock-step only (pass-through of the driver; not part of the container model)
 SHAPED_OPS = ("grp", "ds", "del", "copy", "move", "mset", "mdel", "mseq") + NOMODEL_OPS
 BOUNDARY = ("patch", "reopen")
-# REAL DEFECT of the unchanged tree found by the `get` probe (reported to the coordinator; neither repaired in
-# /repo nor recorded in known_findings.json yet): `group.get(path)` with a path that leads THROUGH A DATASET
+# F33 (repaired in /repo by 8070d27, recorded in known_findings.json; the probe is always on): `group.get(path)` with a path that leads THROUGH A DATASET
 # (`mc["/b/a"] = "x"; mc.get("/b/a/c")`) returns the default (None) on h5py.File, but raises ValueError("Cannot
 # access path inside a value") on IH5Record / IH5MFRecord (`IH5InnerNode._node_seq`, overlay.py:324-326;
 # `IH5InnerNode.get` only converts KeyError). Until it is settled such probes are answered "skipped" (decided on
 # the user-visible state, the same in every variant), so that the check does not depend on whether a seed
 # happens to generate one. True: probe them (corpus/C09/22-get-path-through-dataset.json is the witness;
 # signature C09:outcome-differs:ih5:get).
-PROBE_GET_THROUGH_DATASET = os.environ.get("VERIF_C09_PENDING", "") == "1"  # `VERIF_C09_PENDING=1 ./check C09` shows both
-# THIRD-PARTY behaviour (HDF5 2.0.0 / h5py 3.16 `H5Ocopy`) found by the call shapes (reported, not recorded yet):
+PROBE_GET_THROUGH_DATASET = True
+# F34 (third-party behaviour of HDF5 2.0.0 / h5py 3.16 `H5Ocopy`, avoided by the container since cbb3564 — raw copies
+# are issued on the container root with absolute names; recorded in known_findings.json; always probed now):
 # `group.copy(src, "/abs/dst")` called on a NON-ROOT group G with an ABSOLUTE destination is refused by h5py.File
 # with "destination object already exists" when the unrelated node `G.name + "/abs/dst"` exists or that name leads
 # through a dataset (the existence pre-check resolves the absolute name against G; the copy itself would go to
@@ -100,15 +107,15 @@ PROBE_GET_THROUGH_DATASET = os.environ.get("VERIF_C09_PENDING", "") == "1"  # `V
 # `mc["/a/d"] = 1; mc["/b/x"] = 2; mc["/a"].copy("/b", "/d")`. Until it is settled such a copy is issued on the
 # root instead (decided on the user-visible state). True: issue it as generated (witness
 # corpus/C09/23-h5py-copy-absolute-destination-on-subgroup.json; signature C09:outcome-differs:ih5:copy:accepted).
-PROBE_H5_COPY_ABS_DEST_COLLISION = os.environ.get("VERIF_C09_PENDING", "") == "1"
-# REAL DEFECT of the unchanged tree found by the call shapes (reported, not repaired / recorded yet):
+PROBE_H5_COPY_ABS_DEST_COLLISION = True
+# F32 (repaired in /repo by aac4151, recorded in known_findings.json; always probed now):
 # `MetadorGroup.copy(src, <group object>)` builds the destination path as `dest.name + "/" + name` (wrappers.py:486),
 # i.e. "//name" when the destination group is the ROOT (`mc.copy(mc["/b"], mc["/"], name="q")`, `mc.copy("/b/x", mc)`).
 # h5py tolerates the doubled slash; on IH5 the raw copy is made (node /q appears) and then `self["//q"]` raises
 # KeyError: the call fails after its effect, copied metadata is not registered. Until it is settled the group-object
 # form is not used for the root (the path form is used instead). True: use it (witness
 # corpus/C09/24-copy-into-root-group-object.json; signature C09:outcome-differs:ih5:copy:refused:dest-group-object).
-PROBE_COPY_INTO_ROOT_GROUP_OBJECT = os.environ.get("VERIF_C09_PENDING", "") == "1"
+PROBE_COPY_INTO_ROOT_GROUP_OBJECT = True
 IH5 = ("ih5", "mf")
 
 
